@@ -91,13 +91,27 @@ def gen_module(rng: random.Random) -> str:
     return '\n'.join(lines) + '\n'
 
 
+# boundary modules: bodies of length 0, 1, 2; docstring-only suites at every level; every SkipNode site alone
+CORPUS = [
+    '', '\n', '"""only a docstring"""\n', '"""doc"""\nx = 1\n', 'pass\n', 'x = 1\n', '...\n',
+    'class C:\n    """only doc"""\n', 'class C: pass\n', 'def f():\n    """only doc"""\n', 'def f(): pass\n',
+    'async def f():\n    """only doc"""\n',
+    "if __name__ == '__main__':\n    def f(): pass\n    class C: pass\n",
+    'def f():\n    def g():\n        def h(): pass\n    class K:\n        def m(self): pass\n',
+    'class C:\n    @property\n    def p(self):\n        """doc"""\n        def inner(): pass\n        return 1\n    @p.setter\n    def p(self, v):\n        class Z: pass\n',
+    'from typing import overload\n@overload\ndef f(x: int) -> int: ...\n@overload\ndef f(x: str) -> str: ...\ndef f(x): return x\n@overload\ndef f(x: bytes) -> bytes:\n    class Late: pass\n',
+    'class A:\n    class B:\n        class C:\n            """deep"""\n',
+    '"""doc"""\nclass C:\n    """doc"""\n    def m(self):\n        """doc"""\n',
+    'import os\n', 'from os import path\n', '__all__ = []\n', '__docformat__ = "epytext"\n',
+]
+
 def main() -> None:
     req = json.load(sys.stdin)
     if 'sources' in req:
         sources = req['sources']
     else:
         rng = random.Random(req['seed'])
-        sources = [gen_module(rng) for _ in range(req['n'])]
+        sources = list(CORPUS) + [gen_module(rng) for _ in range(req['n'])]
     failures = []
     for i, src in enumerate(sources):
         observed.clear()
@@ -108,7 +122,7 @@ def main() -> None:
         system = model.System()
         system.options.verbosity = -10
         b = system.systemBuilder(system)
-        b.addModuleString(src, 'm%d' % i)
+        b.addModuleString(src, 'm%d' % i, is_package=(i % 3 == 0))
         try:
             b.buildModules()
         except Exception as e:  # builder crashed: stack discipline was violated by an assert or else
